@@ -257,7 +257,7 @@ def main():
         },
         "engines": [
             {"name": "tla-trace", "path": "/verif/check", "serves_properties": sorted(CLAIMED),
-             "kind_free_text": "TLA+ specification suite (/verif/spec) checked with TLC; Rust harness (/verif/harness) "
+             "kind_free_text": "TLA+ specification suite (/verif/spec) checked with TLC (one module also with Apalache); Rust harness (/verif/harness) "
                                "drives /repo's working tree and its NDJSON traces are validated against the spec; "
                                "TLC-generated behaviours are replayed on the real code"},
         ],
